@@ -32,8 +32,12 @@
 
    [variant]: Cold = stateNamesExport may be nil (StateNames() takes its write
    branch); Warm = StateNames() was called since the last VerifyStates /
-   SetSchema / Import, the write branch is dead; Fixed = the candidate repair
-   (stateNamesExport becomes an atomic.Pointer).
+   SetSchema / Import, the write branch is dead; Fixed = the candidate repairs
+   (corpus/C12/fix_c12_*.diff): stateNamesExport becomes an atomic.Pointer,
+   VerifyStates writes under activeStatesMx + schemaMx exclusively, Has reads
+   under schemaMx, Import takes activeStatesMx exclusively, NetworkMachine
+   .Tracers takes tracersMx, updateClock takes logEntriesLock. SetSchema is
+   not repaired.
 
    The table follows /repo at commit 296eb40 ("fix: WhenQuery with a context
    no longer panics").
@@ -310,7 +314,11 @@ Definition p_CanAdd : prog := p_pre ++ p_index ++ p_PrependMut.
 Definition p_Eval : prog := p_flags ++ [Atomic a_cur] ++ p_log ++ p_PrependMut ++ p_log.
 
 (* ---- checks and getters *)
-Definition p_Has : prog := p_flags ++ [Read stateNames].
+Definition p_Has : prog :=
+  match v with
+  | Fixed => p_flags ++ locked schemaMx Sh [Read stateNames]
+  | _ => p_flags ++ [Read stateNames]
+  end.
 Definition p_IsClock : prog := p_flags ++ locked activeStatesMx Sh [Read clock].
 Definition p_WillBe : prog := p_IsQueued ++ [Atomic a_queueLen].
 Definition p_ActiveStates : prog := p_flags ++ locked activeStatesMx Sh [Read activeStates].
@@ -380,15 +388,24 @@ Definition p_Export : prog :=
      [Read machineTick; Read stateNames; Read queueTick; Read schema]))).
 (* machine.go:3397: activeStates / clock are written under activeStatesMx RLock *)
 Definition p_Import : prog :=
-  locked activeStatesMx Sh (locked queueMx Sh (locked schemaMx Ex
+  locked activeStatesMx (match v with Fixed => Ex | _ => Sh end)
+   (locked queueMx Sh (locked schemaMx Ex
     ([Read schema; Write activeStates; Read stateNames; Read activeStates; Write clock;
       Write stateNames] ++ p_resetExport ++ [Atomic a_flags; Write machineTick] ++
-     p_Has ++ p_log))).
+     (match v with Fixed => [Read stateNames] | _ => p_Has end) ++ p_log))).
 (* machine.go:1833: stateNames / stateNamesExport are written under schemaMx RLock *)
 Definition p_verifyInner : prog :=
   [Read schema; Read stateNames; Write stateNames] ++ p_resetExport ++
   [Atomic a_flags] ++ p_tracers.
-Definition p_VerifyStates : prog := p_flags ++ locked schemaMx Sh p_verifyInner.
+Definition p_VerifyStates : prog :=
+  match v with
+  | Fixed =>
+      p_flags ++
+      locked activeStatesMx Ex (locked schemaMx Ex
+        ([Read schema; Read stateNames; Write stateNames] ++ p_resetExport ++ [Atomic a_flags])) ++
+      p_tracers
+  | _ => p_flags ++ locked schemaMx Sh p_verifyInner
+  end.
 (* machine.go:3201: m.schema / m.stateNames are read again, and the resolver
    is rebuilt, after schemaMx is released *)
 Definition p_SetSchema : prog :=
@@ -421,7 +438,11 @@ Definition p_nmUpdateClock : prog :=
   Acq nmClockMx Ex ::
   locked nmTracersMx Ex
     ([Read nmMachTime; Read nmMachClock] ++ p_nmActive ++ p_nmStateNames ++ p_nmStateNames ++
-     [Read nmLogEntries; Atomic a_nmCurTx; Write nmLogEntries; Read nmTracers;
+     (match v with
+      | Fixed => locked nmLogLock Ex [Read nmLogEntries; Write nmLogEntries]
+      | _ => [Read nmLogEntries; Write nmLogEntries]
+      end) ++
+     [Atomic a_nmCurTx; Read nmTracers;
       Write nmMachTime; Write nmMachClock; Write nmMachTick; Read nmQueueTick] ++
      p_nmLog ++ [Read nmSubsQueue; Write nmQueueTick; Atomic a_nmActive; Write nmActiveDbg] ++
      locked nmHandlersMx Ex [Read nmHandlers] ++
@@ -454,7 +475,11 @@ Definition p_nmNewStateCtx : prog :=
     (locked nmSubsMx Ex ([Read nmSubsStateCtx; Read nmSubsClock; Read nmMachClock;
                         Write nmSubsStateCtx] ++ p_nmLog)).
 (* netmach.go:1327: Tracers() takes clockMx, the writers take tracersMx *)
-Definition p_nmTracers : prog := locked nmClockMx Ex [Read nmTracers].
+Definition p_nmTracers : prog :=
+  match v with
+  | Fixed => locked nmTracersMx Sh [Read nmTracers]
+  | _ => locked nmClockMx Ex [Read nmTracers]
+  end.
 Definition p_nmTracerBind : prog :=
   locked nmTracersMx Ex ([Read nmTracers; Write nmTracers] ++ p_nmLog).
 
@@ -608,11 +633,17 @@ Definition lookup (v : variant) (name : string) : option entry :=
 Definition prog_of (v : variant) (name : string) : prog :=
   match lookup v name with Some e => e_prog e | None => [] end.
 
-Definition is_culprit (name : string) : bool :=
-  existsb (String.eqb name) culprits.
+(* what is left of them under the candidate repairs *)
+Definition culprits_v (v : variant) : list string :=
+  match v with Fixed => ("SetSchema"%string) :: nil | _ => culprits end.
+
+Definition is_culprit_v (v : variant) (name : string) : bool :=
+  existsb (String.eqb name) (culprits_v v).
+
+Definition is_culprit (name : string) : bool := is_culprit_v Warm name.
 
 Definition safe_entries (v : variant) : list entry :=
-  filter (fun e => negb (is_culprit (e_name e))) (api_table v).
+  filter (fun e => negb (is_culprit_v v (e_name e))) (api_table v).
 
 Definition safe_progs (v : variant) : list prog := map e_prog (safe_entries v).
 
